@@ -1558,6 +1558,8 @@ fn run_rd(ws: &[&str]) -> (String, String) {
     let got: Vec<u8> = value.flatten().unwrap_or_default();
     // the statement, directly: a well-formed line arrives byte for byte; malformed input is refused
     let line = &data[..data.len().saturating_sub(1)];
+    // with n = 0 there is no middle byte to spoil
+    let bad = if n == 0 && matches!(bad, 1 | 3 | 4) { 0 } else { bad };
     let oracle = match bad {
         0 => {
             let mut want = b"0:".to_vec();
